@@ -392,6 +392,7 @@ impl World {
         self.decisions += 1;
         let label = labels[i].clone();
         self.log(format!("d{} {}", self.decisions, label));
+
         if i >= extra_base {
             return Ok(Picked::Extra(i - extra_base));
         }
